@@ -29,7 +29,7 @@ theorem modes_agree_aux (w : World) (cfg : Cfg) :
       | bytes => simp only [stD, stF]; cases o.toBytes? <;> rfl
       | bool => simp [stD, stF, Res.toOption]
       | enum e => simp only [stD, stF]; cases enumOf w e o <;> rfl
-      | lit vs => simp only [stD, stF]; split <;> rfl
+      | lit vs => simp only [stD, stF]; cases litStruct w vs o <;> rfl
       | coll k t' =>
         cases hit : iterItems o with
         | none => rw [stD_coll_none w cfg hit, stF_coll_none w cfg hit]; exact Leaf.modes_agree w cfg _ _ o
